@@ -211,4 +211,22 @@ def admitted (horizon : Nat) (ev : EventSpec d) : Prop :=
 
 instance (h : Nat) (ev : EventSpec d) : Decidable (admitted h ev) := by unfold admitted; infer_instance
 
+/-! ### validation of events (constructors of `boario.event`) -/
+
+/-- `np.isclose(shares.sum(), 1.0)` -/
+def sharesSumOK (ev : EventSpec d) : Prop := isClose (sumFin d.n fun s => ev.shares s) 1
+
+instance (ev : EventSpec d) : Decidable (sharesSumOK ev) := by unfold sharesSumOK; infer_instance
+
+/-- the numeric rejections of the event constructors: non-positive characteristic time, occurrence or
+    duration; an impact with a negative entry or without any positive entry; a capacity loss above
+    100 %; rebuilding shares that do not sum to 1 -/
+def eventRejected (ev : EventSpec d) : Prop :=
+  ev.tau = 0 ∨ ev.occ = 0 ∨ ev.dur = 0 ∨
+  (∃ r s, ev.impact (r, s) < 0) ∨ (∀ r s, ev.impact (r, s) = 0) ∨
+  (ev.kind = .arbitrary ∧ ∃ r s, 1 < ev.impact (r, s)) ∨
+  (ev.kind = .rebuild ∧ ¬ sharesSumOK ev)
+
+instance (ev : EventSpec d) : Decidable (eventRejected ev) := by unfold eventRejected; infer_instance
+
 end Boario
